@@ -201,7 +201,7 @@ impl World for C08 {
     }
     fn budget(&self, tier: Tier) -> (u64, u64) {
         match tier {
-            Tier::Quick => (500, 45),
+            Tier::Quick => (1500, 45),
             Tier::Thorough => (20_000, 900),
         }
     }
